@@ -1,4 +1,4 @@
-import RTV.Lemmas.TimexGrammar
+import RTV.Lemmas.TimexGuard
 import RTV.Model.TimexConvert
 /-!
 # C14 — TIMEX strings survive parsing and formatting unchanged
@@ -9,6 +9,20 @@ accept with ASCII digits: a well-formed TIMEX is a value of `WF` (one constructo
 digits are parameters) and `render` writes it down.  The theorems hold for **every** configuration that satisfies
 `CfgOK` (the 18 patterns as they stood when the proofs were made, a digit table that knows the ASCII digits) and
 `genCfg_ok` shows that the configuration regenerated from the working tree is one.
+
+**Scope of the guards (audit item 17).**  `WF` contains every string `TimexParsing` takes apart: any of the 12 `'date'`
+patterns, any of the 4 `'time'` patterns, and ANY `'date'` pattern followed by ANY `'time'` pattern (that is how
+`extract_date_time` composes them).  The round-trip theorems carry the guard `InRange`; section "the guards are exact"
+proves that the guard is not only sufficient but NECESSARY: `inRange_exact : InRange w ↔ RoundTrips genCfg (render w)`.
+The strings outside the guard are of two kinds:
+* out-of-range field values — year `0000`, month `XXXX-00`, weekday `XXXX-WXX-0` (three strings): the property
+  quantifies over years 0001–9999 and over months / weekdays that exist; Python truthiness of `0` makes `format` print
+  `''` (`out_of_range_format_empty`).  Recorded as an observation, not as a finding.
+* a year, month, season, week, weekend, week-of-month form followed by a time of day or part of day (`2020-05T05`,
+  `2020T05`, `SUTMO`, …): the datatype ACCEPTS them (fields of both halves are assigned) and `timex_value()` drops the
+  time (`dt_guard_necessary`, for all digits; `noncombinable_witnesses` are the instances the check replays).  These are
+  strings of "the grammar the datatype accepts" built by the datatype's own date+time composition: finding
+  `noncombinable-date+time:<form>`.
 -/
 namespace RTV.Timex
 open RTV.Py RTV.Cal
@@ -98,15 +112,76 @@ theorem format_idempotent (cfg : Cfg) (hc : CfgOK cfg) (w : WF) (hr : InRange w)
   have := format_parse cfg hc (norm w) (inRange_norm w hr)
   rwa [norm_idem] at this
 
-/-- canonical strings: the image of `format` on the grammar -/
-def Canonical (s : Str) : Prop := ∃ w, InRange w ∧ s = render (norm w)
+/-! ### canonical strings, defined by a grammar (not as the image of `format`)
 
-/-- C14 **canonical_fixed** — a string already in canonical form comes back identical. -/
+A canonical TIMEX is `render w` for a `w` of the grammar whose time part is SHORT — written without a trailing `:00`
+(`T05`, `T05:30`, `T05:30:15`, never `T05:00` or `T05:30:00`) — and whose fields are in range (`InRange`: no year
+`0000`, month `00`, weekday `0`; a time only after a full date, an open-year date or a weekday).  Nothing in this
+definition mentions `format`, `parse` or `norm`. -/
+
+/-- a time form without a trailing `:00` part -/
+def ShortT : TimeForm → Prop
+  | .hm _ _ m1 m2 => ¬ (m1 = 0 ∧ m2 = 0)
+  | .hms _ _ _ _ s1 s2 => ¬ (s1 = 0 ∧ s2 = 0)
+  | _ => True
+
+def CanonicalW : WF → Prop
+  | .t g => ShortT g
+  | .dt f g => Combinable f ∧ ShortT g
+  | w => InRange w
+
+/-- canonical strings: a grammar -/
+def Canonical (s : Str) : Prop := ∃ w, CanonicalW w ∧ s = render w
+
+theorem normT_short (g : TimeForm) (h : ShortT g) : normT g = g := by
+  cases g <;> simp_all [normT, ShortT]
+
+theorem short_normT (g : TimeForm) : ShortT (normT g) := by
+  cases g with
+  | h => simp [normT, ShortT]
+  | pod => simp [normT, ShortT]
+  | hm h1 h2 m1 m2 => by_cases hz : m1 = 0 ∧ m2 = 0 <;> simp [normT, ShortT, hz]
+  | hms h1 h2 m1 m2 s1 s2 =>
+    by_cases hs : s1 = 0 ∧ s2 = 0 <;> by_cases hz : m1 = 0 ∧ m2 = 0 <;> simp [normT, ShortT, hs, hz]
+
+theorem canonicalW_iff (w : WF) : CanonicalW w ↔ InRange w ∧ norm w = w := by
+  cases w with
+  | d f => simp [CanonicalW, norm]
+  | t g =>
+    simp only [CanonicalW, InRange, norm, true_and]
+    constructor
+    · intro h; rw [normT_short g h]
+    · intro h; have := short_normT g; simp only [WF.t.injEq] at h; rwa [h] at this
+  | dt f g =>
+    simp only [CanonicalW, InRange, norm]
+    constructor
+    · intro h; exact ⟨h.1, by rw [normT_short g h.2]⟩
+    · intro h; refine ⟨h.1, ?_⟩; have := short_normT g; have h2 := h.2; simp only [WF.dt.injEq, true_and] at h2; rwa [h2] at this
+  | present => simp [CanonicalW, norm]
+
+/-- C14 **canonical_fixed** — a string already in canonical form (the grammar `Canonical`) comes back identical. -/
 theorem canonical_fixed (cfg : Cfg) (hc : CfgOK cfg) (s : Str) (h : Canonical s) :
     formatT (parse cfg s) = .ok s := by
-  obtain ⟨w, hr, rfl⟩ := h
-  have := format_parse cfg hc (norm w) (inRange_norm w hr)
-  rwa [norm_idem] at this
+  obtain ⟨w, hw, rfl⟩ := h
+  obtain ⟨h1, h2⟩ := (canonicalW_iff w).1 hw
+  have := format_parse cfg hc w h1
+  rwa [h2] at this
+
+/-- the grammar `Canonical` is exactly the set of strings `format` produces on the in-range grammar: nothing the
+formatter emits is missing from it, and it contains nothing else -/
+theorem canonical_iff_image (s : Str) : Canonical s ↔ ∃ w, InRange w ∧ s = render (norm w) := by
+  constructor
+  · rintro ⟨w, hw, rfl⟩
+    obtain ⟨h1, h2⟩ := (canonicalW_iff w).1 hw
+    exact ⟨w, h1, by rw [h2]⟩
+  · rintro ⟨w, hw, rfl⟩
+    exact ⟨norm w, (canonicalW_iff _).2 ⟨inRange_norm w hw, norm_idem w⟩, rfl⟩
+
+/-- `T05:30`, `2020-02-29T05` are canonical; `T05:00` is not a `render` of any canonical form (its canonical form is
+`T05`) -/
+example : Canonical [84, 48, 53, 58, 51, 48] ∧ Canonical [50, 48, 50, 48, 45, 48, 50, 45, 50, 57, 84, 48, 53] :=
+  ⟨⟨.t (.hm 0 5 3 0), by simp [CanonicalW, ShortT], by decide⟩,
+   ⟨.dt (.date 2 0 2 0 0 2 2 9) (.h 0 5), by simp [CanonicalW, ShortT, Combinable], by decide⟩⟩
 
 /-- the three theorems for the configuration regenerated from the working tree -/
 theorem tree_roundtrip (w : WF) (hr : InRange w) :
@@ -125,6 +200,98 @@ example : InRange (.d (.date 2 0 2 0 0 2 2 9)) ∧ InRange (.d (.weekday 3)) ∧
     render (norm (.dt (.date 2 0 2 0 0 2 2 9) (.hms 0 5 3 0 0 0))) =
       [50, 48, 50, 48, 45, 48, 50, 45, 50, 57, 84, 48, 53, 58, 51, 48] := by
   refine ⟨by simp [InRange], by simp [InRange], by simp [InRange], by decide, by simp [InRange, Combinable], by decide⟩
+
+/-! ## the guards are exact
+
+`RoundTrips cfg s` is the round-trip clause of the property for one string.  `InRange` is sufficient
+(`inRange_roundTrips`) AND necessary (`dt_guard_necessary`, `inRange_d_exact`): on the grammar `WF` the property holds
+exactly on the guarded set. -/
+
+theorem inRange_roundTrips (cfg : Cfg) (hc : CfgOK cfg) (w : WF) (hr : InRange w) : RoundTrips cfg (render w) := by
+  obtain ⟨v, h1, h2⟩ := parse_format_fields cfg hc w hr
+  obtain ⟨v', h1', h3⟩ := format_idempotent cfg hc w hr
+  rw [h1] at h1'; cases h1'
+  exact ⟨v, h1, h2, h3⟩
+
+/-- C14 **dt_guard_necessary** — the guard `Combinable` of the date + time clause is NECESSARY: for EVERY date form
+that is not combinable (year, year-month, season, year-season, ISO week, weekend, open month, week of month,
+`XXXX-MM-WXX-w-d`, and weekday `0`), every time form and all digits, the string is accepted (`dt_has_time`: the fields
+of the time half are assigned) and its `timex_value()` is a text with OTHER field values (`lossy`: the time of day is
+dropped).  Finding `noncombinable-date+time:<form>` (weekday `0` + time: out-of-range observation). -/
+theorem dt_guard_necessary (cfg : Cfg) (hc : CfgOK cfg) (f : DateForm) (g : TimeForm) (hf : ¬ Combinable f) :
+    ¬ RoundTrips cfg (renderD f ++ renderT g) :=
+  not_roundTrips cfg _ _ (format_lossy cfg hc f g hf) (lossy_fields_differ cfg hc f g hf)
+
+/-- negative witnesses (replayed by the check on the implementation): `2020-05T05 ↦ 2020-05`, `2020T05 ↦ 2020`,
+`SUTMO ↦ SU`, `2020-W05T05 ↦ 2020-W05`, `XXXX-05-WXX-2-3TMO ↦ XXXX-WXX-3TMO`; in each case the parsed string has a time of
+day / part of day / month that the re-parsed output lacks -/
+theorem noncombinable_witnesses :
+    (formatT (parse genCfg [50, 48, 50, 48, 45, 48, 53, 84, 48, 53]) = .ok [50, 48, 50, 48, 45, 48, 53] ∧
+      (parse genCfg [50, 48, 50, 48, 45, 48, 53, 84, 48, 53]).hour = some (.int 5) ∧
+      (parse genCfg [50, 48, 50, 48, 45, 48, 53]).hour = none) ∧
+    (formatT (parse genCfg [50, 48, 50, 48, 84, 48, 53]) = .ok [50, 48, 50, 48] ∧
+      (parse genCfg [50, 48, 50, 48, 84, 48, 53]).hour = some (.int 5) ∧ (parse genCfg [50, 48, 50, 48]).hour = none) ∧
+    (formatT (parse genCfg [83, 85, 84, 77, 79]) = .ok [83, 85] ∧
+      (parse genCfg [83, 85, 84, 77, 79]).partOfDay = some [77, 79] ∧ (parse genCfg [83, 85]).partOfDay = none) ∧
+    (formatT (parse genCfg [50, 48, 50, 48, 45, 87, 48, 53, 84, 48, 53]) = .ok [50, 48, 50, 48, 45, 87, 48, 53]) ∧
+    (formatT (parse genCfg [88, 88, 88, 88, 45, 48, 53, 45, 87, 88, 88, 45, 50, 45, 51, 84, 77, 79]) =
+        .ok [88, 88, 88, 88, 45, 87, 88, 88, 45, 51, 84, 77, 79] ∧
+      (parse genCfg [88, 88, 88, 88, 45, 48, 53, 45, 87, 88, 88, 45, 50, 45, 51, 84, 77, 79]).month = some (.int 5) ∧
+      (parse genCfg [88, 88, 88, 88, 45, 87, 88, 88, 45, 51, 84, 77, 79]).month = none) := by
+  decide
+
+/-- out-of-range observations (NOT findings: the property quantifies over years 0001–9999 and over months / weekdays
+that exist): the three strings of the twelve date patterns that `InRange` excludes — `0000`, `XXXX-00`, `XXXX-WXX-0` —
+are accepted (a field is set: the `Timex` differs from the empty one) and format to `''` (Python truthiness of `0`). -/
+theorem out_of_range_format_empty :
+    (formatT (parse genCfg [48, 48, 48, 48]) = .ok [] ∧ parse genCfg [] ≠ parse genCfg [48, 48, 48, 48]) ∧
+    (formatT (parse genCfg [88, 88, 88, 88, 45, 48, 48]) = .ok [] ∧
+      parse genCfg [] ≠ parse genCfg [88, 88, 88, 88, 45, 48, 48]) ∧
+    (formatT (parse genCfg [88, 88, 88, 88, 45, 87, 88, 88, 45, 48]) = .ok [] ∧
+      parse genCfg [] ≠ parse genCfg [88, 88, 88, 88, 45, 87, 88, 88, 45, 48]) := by
+  decide
+
+/-- on the twelve date patterns the guard is exact (tree configuration) -/
+theorem inRange_d_exact (f : DateForm) : InRange (.d f) ↔ RoundTrips genCfg (renderD f) := by
+  constructor
+  · exact fun h => inRange_roundTrips genCfg genCfg_ok (.d f) h
+  · intro h
+    refine Classical.byContradiction fun hn => ?_
+    obtain ⟨⟨a1, a2⟩, ⟨b1, b2⟩, ⟨c1, c2⟩⟩ := out_of_range_format_empty
+    cases f <;> simp only [InRange, not_true_eq_false, Classical.not_not, ne_eq] at hn
+    case weekday w =>
+      have : w = 0 := Fin.ext hn
+      subst this
+      exact not_roundTrips genCfg _ _ c1 c2 h
+    case year y1 y2 y3 y4 =>
+      obtain ⟨e1, e2, e3, e4⟩ := hn
+      have : y1 = 0 := Fin.ext e1
+      have : y2 = 0 := Fin.ext e2
+      have : y3 = 0 := Fin.ext e3
+      have : y4 = 0 := Fin.ext e4
+      subst_vars
+      exact not_roundTrips genCfg _ _ a1 a2 h
+    case month m1 m2 =>
+      obtain ⟨e1, e2⟩ := hn
+      have : m1 = 0 := Fin.ext e1
+      have : m2 = 0 := Fin.ext e2
+      subst_vars
+      exact not_roundTrips genCfg _ _ b1 b2 h
+
+/-- C14 **inRange_exact** — on the whole grammar `WF` (every string `TimexParsing` takes apart into a `'date'` part
+and / or a `'time'` part, and `PRESENT_REF`), for the configuration regenerated from the tree: the round-trip clause of
+the property holds EXACTLY on the guarded set. -/
+theorem inRange_exact (w : WF) : InRange w ↔ RoundTrips genCfg (render w) := by
+  constructor
+  · exact inRange_roundTrips genCfg genCfg_ok w
+  · intro h
+    cases w with
+    | d f => exact (inRange_d_exact f).2 h
+    | t g => trivial
+    | dt f g =>
+      refine Classical.byContradiction fun hn => ?_
+      exact dt_guard_necessary genCfg genCfg_ok f g hn h
+    | present => trivial
 
 /-! ## durations with integer amounts -/
 
